@@ -127,11 +127,16 @@ def _load_parameter(obj_dict: dict[str, Any]) -> Parameter:
 def _attach_parent_to_expr(expr: expressions.Expr | str | None, parent: Module | Class) -> None:
     if not isinstance(expr, expressions.Expr):
         return
-    for elem in expr:
-        if isinstance(elem, expressions.ExprName):
-            elem.parent = parent
-        elif isinstance(elem, expressions.ExprAttribute) and isinstance(elem.first, expressions.ExprName):
-            elem.first.parent = parent
+    if isinstance(expr, expressions.ExprName):
+        expr.parent = parent
+    elif isinstance(expr, expressions.ExprAttribute):
+        # Only the leftmost part is resolved in the scope, the other parts are linked to each other.
+        _attach_parent_to_expr(expr.first, parent)
+    else:
+        # Recurse in sub-expressions, whatever their depth.
+        for elem in expr:
+            if elem is not expr:
+                _attach_parent_to_expr(elem, parent)
 
 
 def _attach_parent_to_exprs(obj: Class | Function | Attribute, parent: Module | Class) -> None:
